@@ -1,92 +1,237 @@
 """gen_literals — regenerate lean/W2c2Verif/Gen/Literals.lean from wasmCWriteLiteral (c.c) and the
 number formatters of stringbuilder.c: the masks / comparison constants that classify a float
 constant (NaN / infinity / negative zero / finite), the text fragments, printf formats and
-buffer sizes."""
+buffer sizes.
+
+The extraction is SEMANTIC (tools/extract/csem.py): every case of wasmCWriteLiteral is turned into the decision tree it
+computes — conditions in negation normal form over `bits` after copy propagation of the `const` temporaries and named
+constants, literals by value (`W2C2_LL(0x…U)`, `0x007fffffU` = `0x7fffffU`), `switch` = if chain, either branch order — whose
+leaves are the texts written; the facts are read off that tree.  Local and parameter names are free (parameters are taken by
+position, the formatter's buffer / length by the role they play in `sprintf` and `stringBuilderAppendSized`).  A tree of any
+other shape (a new branch, a missing class, a truncating cast around a mask test) is an ExtractFail, i.e. a broken tie."""
 import os
 import re
 import sys
-from cfront import ExtractFail, lean_str
-from gen_emit import strip_comments, function_body, switch_groups
+
+import cfront
+import csem as cs
+from cfront import ExtractFail, lean_str, Var, Call, Un, Cast, Member, Bin
 
 GEN_NAME = "Literals"
 
-
-def num(s):
-    s = s.strip()
-    m = re.fullmatch(r"W2C2_LL\((.*)\)", s)
-    if m:
-        s = m.group(1)
-    s = re.sub(r"[uUlL]+$", "", s)
-    return int(s, 0)
+FORMATTERS = ("stringBuilderAppendU32", "stringBuilderAppendI32", "stringBuilderAppendU64", "stringBuilderAppendI64",
+              "stringBuilderAppendF32", "stringBuilderAppendF64", "stringBuilderAppendCharHex", "stringBuilderAppendU32Hex",
+              "stringBuilderAppendU64Hex")
+TYPEDEFS = {"WasmValueType": "u32", "WasmValue": "u64", "StringBuilder": "u64"}
 
 
-def float_branch(text, where):
-    """Parse one `case wasmValueTypeF32/F64` block of wasmCWriteLiteral."""
-    m = re.search(r"if\s*\(\(bits\s*&\s*([^)]*\)?)\)\s*==\s*([^)]*\)?)\)\s*\{", text)
-    if not m:
-        raise ExtractFail(where, "exponent test `(bits & M) == M` not found")
-    emask, ecmp = num(m.group(1)), num(m.group(2))
-    m = re.search(r"isNegative\s*=\s*\(bits\s*&\s*([^)]*\)?)\)\s*!=\s*0", text)
-    if not m:
-        raise ExtractFail(where, "sign test not found")
-    smask = num(m.group(1))
-    m = re.search(r"significand\s*=\s*bits\s*&\s*([^;]*);", text)
-    if not m:
-        raise ExtractFail(where, "significand mask not found")
-    sigmask = num(m.group(1))
-    if not re.search(r"if\s*\(significand\s*==\s*0\)", text):
-        raise ExtractFail(where, "`significand == 0` test not found")
-    m = re.search(r"else\s+if\s*\(bits\s*==\s*([^)]*\)?)\)\s*\{\s*MUST\s*\(stringBuilderAppend\(builder,\s*\"([^\"]*)\"\)\)", text)
-    if not m:
-        raise ExtractFail(where, "negative-zero branch not found")
-    negzero, negzero_text = num(m.group(1)), m.group(2)
-    strs = re.findall(r'stringBuilderAppend\(builder,\s*"([^"]*)"\)', text)
-    chars = re.findall(r"stringBuilderAppendChar\(builder,\s*'(.)'\)", text)
-    m = re.search(r'stringBuilderAppend\(builder,\s*"(\w+\(0x)"\)\)\s*MUST\s*\((stringBuilderAppendU\d+Hex)', text)
-    if not m:
-        raise ExtractFail(where, "NaN branch (reinterpret call with hex literal) not found")
-    nan_prefix, hexfn = m.group(1), m.group(2)
-    m = re.search(r"MUST\s*\((stringBuilderAppendF\d+)\(builder,\s*value\.f\d+\)\)", text)
-    if not m:
-        raise ExtractFail(where, "finite branch not found")
-    decfn = m.group(1)
-    if "INFINITY" not in strs or "-" not in chars or ")" not in chars:
-        raise ExtractFail(where, "INFINITY / '-' / ')' fragments not found")
-    return dict(emask=emask, ecmp=ecmp, smask=smask, sigmask=sigmask, negzero=negzero, negzero_text=negzero_text,
-                nan_prefix=nan_prefix, hexfn=hexfn, decfn=decfn)
+def _functions(repo, fname):
+    import gen_files            # the shared preprocessing (configuration macros, MUST(_) expanded to its if/return)
+    return gen_files.functions_of(repo, fname)[0]
 
 
-def formatter(sb, fn, where):
-    body = function_body(sb, fn, where)
-    m = re.search(r"char\s+buffer\[(\d+)\];", body)
-    f = re.search(r'sprintf\(buffer,\s*"([^"]*)",\s*([^)]*\)?)\)', body)
-    if not m or not f:
+# ----------------------------------------------------------------------------- wasmCWriteLiteral as decision trees
+
+class _Lit:
+    def __init__(self, where, builder, value):
+        self.where, self.builder, self.value = where, builder, value
+
+    def fail(self, why):
+        raise ExtractFail(self.where, why)
+
+    def event(self, call):
+        """one `MUST (f(builder, …))` → ('text', bytes) for the plain appends, else (function, [canonical arguments])"""
+        if not (isinstance(call, Call) and call.args and isinstance(call.args[0], Var) and call.args[0].n == self.builder):
+            self.fail("a statement of wasmCWriteLiteral is not an append to the builder")
+        if call.f == "stringBuilderAppend" and len(call.args) == 2 and cs.is_str(cs.subst(call.args[1], self.env)):
+            return ("text", cs.str_value(cs.subst(call.args[1], self.env), self.where))
+        if call.f == "stringBuilderAppendChar" and len(call.args) == 2 and cs.int_value(cs.subst(call.args[1], self.env)) is not None:
+            v = cs.int_value(cs.subst(call.args[1], self.env))
+            if not 0 < v < 128:
+                self.fail("non-ASCII character appended")
+            return ("text", bytes([v]))
+        return (call.f, [cs.key(cs.subst(a, self.env), casts=False) for a in call.args[1:]])
+
+    def tree(self, stmts, acc):
+        """statement list → ('leaf', events) | ('if', condition, then-tree, else-tree); what follows an if is part of both arms"""
+        for n, s in enumerate(stmts):
+            k = s[0]
+            if k == "decl":
+                if s[1].name in self.env:
+                    continue
+                self.fail(f"`{s[1].name}` is not a constant temporary")
+            if k == "if":
+                c, T, E = s[1], s[2], s[3]
+                # MUST (call): if (!(call)) { return false; }
+                if E is None and len(T) == 1 and T[0][0] == "return" and T[0][1] is not None and cs.int_value(T[0][1]) == 0 \
+                        and isinstance(cs.strip(c, casts=False), Un) and cs.strip(c, casts=False).op == "lnot" \
+                        and isinstance(cs.strip(cs.strip(c, casts=False).e, casts=False), Call):
+                    acc = acc + [self.event(cs.strip(cs.strip(c, casts=False).e, casts=False))]
+                    continue
+                rest = stmts[n + 1:]
+                return ("if", cs.truth(cs.subst(c, self.env)), self.tree(T + rest, acc), self.tree((E or []) + rest, acc))
+            if k == "block":
+                return self.tree(s[1] + stmts[n + 1:], acc)
+            if k == "break":
+                break
+            self.fail(f"unexpected {k} statement in a case of wasmCWriteLiteral")
+        merged = []
+        for e in acc:
+            if e[0] == "text" and merged and merged[-1][0] == "text":
+                merged[-1] = ("text", merged[-1][1] + e[1])
+            else:
+                merged.append(e)
+        return ("leaf", merged)
+
+    def case(self, body):
+        body = cs.lower(body, self.where)
+        self.env = cs.constant_env(body, [self.builder, self.value])
+        return self.tree(body, [])
+
+    # -- reading a float case
+    def test(self, node, bits):
+        """('if', atom, T, F) → (kind, mask|None, constant, tree when EQUAL, tree when different)"""
+        if node[0] != "if" or not isinstance(node[1], cs.BAtom) or node[1].op not in ("eq", "ne"):
+            self.fail("a test of the float classification is not an (in)equality")
+        a, b = node[1].a, node[1].b
+        if cs.int_value(b) is None:
+            a, b = b, a
+        c = cs.int_value(b)
+        if c is None:
+            self.fail("a test of the float classification does not compare with a constant")
+        eq, ne = (node[2], node[3]) if node[1].op == "eq" else (node[3], node[2])
+        a = cs.strip(a, casts=False)
+        if cs.key(a, casts=False) == bits:
+            return ("bits", None, c, eq, ne)
+        if isinstance(a, Bin) and a.op == "band":
+            x, m = a.a, a.b
+            if cs.key(x, casts=False) != bits:
+                x, m = m, x
+            if cs.key(x, casts=False) == bits and cs.int_value(m) is not None:
+                return ("masked", cs.int_value(m), c, eq, ne)
+        self.fail("a test of the float classification is not `bits == K` / `(bits & M) == K`: " + cs.bkey(node[1]))
+
+    def float_case(self, body, width):
+        t = self.case(body)
+        ity = {32: "u32", 64: "u64"}[width]
+        bits = f"({ity}){self.value}.i{width}"
+        k, emask, ecmp, special, normal = self.test(t, bits)
+        if k != "masked":
+            self.fail("exponent test `(bits & M) == M` not found")
+        k, sigmask, zero, inf, nan = self.test(special, bits)
+        if k != "masked" or zero != 0:
+            self.fail("`significand == 0` test not found")
+        k, smask, zero, pos, neg = self.test(inf, bits)
+        if k != "masked" or zero != 0:
+            self.fail("sign test not found")
+        if pos != ("leaf", [("text", b"INFINITY")]) or neg != ("leaf", [("text", b"-INFINITY")]):
+            self.fail("INFINITY / '-' fragments not found")
+        if nan[0] != "leaf" or len(nan[1]) != 3 or nan[1][0][0] != "text" or nan[1][2] != ("text", b")") \
+                or not re.fullmatch(rb"\w+\(0x", nan[1][0][1]) or not re.fullmatch(rf"stringBuilderAppendU{width}Hex", nan[1][1][0]) \
+                or nan[1][1][1] != [bits]:
+            self.fail("NaN branch (reinterpret call with hex literal) not found")
+        k, _, negzero, nz, fin = self.test(normal, bits)
+        if k != "bits" or nz[0] != "leaf" or len(nz[1]) != 1 or nz[1][0][0] != "text":
+            self.fail("negative-zero branch not found")
+        if fin[0] != "leaf" or len(fin[1]) != 1 or not re.fullmatch(rf"stringBuilderAppendF{width}", fin[1][0][0]) \
+                or fin[1][0][1] != [f"{self.value}.f{width}"]:
+            self.fail("finite branch not found")
+        return dict(emask=emask, ecmp=ecmp, smask=smask, sigmask=sigmask, negzero=negzero, negzero_text=nz[1][0][1].decode("ascii"),
+                    nan_prefix=nan[1][0][1].decode("ascii"), hexfn=nan[1][1][0], decfn=fin[1][0][0])
+
+
+def literal_cases(f, where):
+    """wasmCWriteLiteral → {value-type label: case body}; `switch (valueType)` or the equivalent if/else-if chain"""
+    ps = cs.param_names(f)
+    if len(ps) != 3:
+        raise ExtractFail(where, "wasmCWriteLiteral no longer takes (builder, valueType, value)")
+    body = cs.lower(cs.parse_stmts(f.body_toks, where, TYPEDEFS), where)
+    chain = [s for s in body if s[0] == "if"]
+    if len(chain) != 1 or [s[0] for s in body if s is not chain[0]] != ["return"]:
+        raise ExtractFail(where, "wasmCWriteLiteral is not one dispatch on the value type followed by `return true`")
+    cases = {}
+    node = chain[0]
+    while True:
+        t = cs.truth(node[1])
+        atoms = t.items if isinstance(t, cs.BOp) and t.op == "or" else [t]
+        for a in atoms:
+            if not (isinstance(a, cs.BAtom) and a.op == "eq"):
+                raise ExtractFail(where, "dispatch of wasmCWriteLiteral is not a comparison of the value type")
+            x, l = (a.a, a.b) if cs.key(a.a) == ps[1] else (a.b, a.a)
+            if cs.key(x) != ps[1] or not isinstance(cs.strip(l), Var):
+                raise ExtractFail(where, "dispatch of wasmCWriteLiteral is not a comparison of the value type")
+            if cs.strip(l).n in cases:
+                raise ExtractFail(where, f"value type {cs.strip(l).n} is handled twice")
+            cases[cs.strip(l).n] = node[2]
+        els = node[3]
+        if els is not None and len(els) == 1 and els[0][0] == "if":
+            node = els[0]
+            continue
+        if els is None or not any(s[0] == "return" and s[1] is not None and cs.int_value(s[1]) == 0 for s in els):
+            raise ExtractFail(where, "an unknown value type must make wasmCWriteLiteral fail")
+        break
+    return ps, cases
+
+
+# ----------------------------------------------------------------------------- the number formatters
+
+def formatter(funcs, fn, where):
+    """`char B[N]; L = sprintf(B, FMT, ARG); return stringBuilderAppendSized(builder, B, (size_t) L);` → (N, FMT, text of ARG),
+    with the locals bound by their roles and the parameters by position"""
+    import gen_files as gf
+    if fn not in funcs:
+        raise ExtractFail(where, f"{fn} not found")
+    f = funcs[fn]
+    ps = cs.param_names(f)
+    if len(ps) != 2:
+        raise ExtractFail(where, f"{fn}: expected (stringBuilder, value)")
+    toks = cs.rename(f.body_toks, dict(zip(ps, ("stringBuilder", "value"))), f"{where}:{fn}")
+    if gf.count_calls(toks, "sprintf") != 1:
         raise ExtractFail(where, f"{fn}: buffer/sprintf not found")
-    return int(m.group(1)), f.group(1), f.group(2).strip()
+    args, _ = gf.find_call(toks, "sprintf", where)
+    if len(args) != 3:
+        raise ExtractFail(where, f"{fn}: sprintf(buffer, format, value) not found")
+    buf = gf.single_id(args[0], where, f"{fn}: the buffer sprintf writes")
+    size = gf.const_int(gf.local_array(toks, buf, f"{where}:{fn}"), {}, where)
+    fmt = gf.c_string(gf.string_constant(toks, args[1], where), where).decode("ascii")
+    length = gf.receiver_of(toks, "sprintf", f"{where}:{fn}")
+    # the receiver is written once (by sprintf); a preceding `int L = <literal>;` that sprintf's result overwrites is allowed
+    dummy = [i for i, t in enumerate(toks) if t.text == length and 0 < i < len(toks) - 3 and toks[i - 1].kind == "id" and toks[i + 1].text == "="
+             and toks[i + 2].kind == "num" and toks[i + 3].text == ";"]
+    first_use = min(i for i, t in enumerate(toks) if t.text == length)
+    if gf.count_writes(toks, length) - (1 if dummy and dummy[0] == first_use else 0) != 1:
+        raise ExtractFail(where, f"{fn}: the length returned by sprintf is changed before it is used")
+    n = gf.norm(toks).replace(" ", "")
+    if not re.search(rf"returnstringBuilderAppendSized\(stringBuilder,{re.escape(buf)},(?:\(size_t\))?{re.escape(length)}\);$", n):
+        raise ExtractFail(where, f"{fn}: does not append exactly what sprintf wrote")
+    return size, fmt, cfront.toks_text(args[2]).strip()
 
 
 def generate(repo):
-    cc = strip_comments(open(os.path.join(repo, "w2c2", "c.c")).read())
-    sb = strip_comments(open(os.path.join(repo, "w2c2", "stringbuilder.c")).read())
-    body = function_body(cc, "wasmCWriteLiteral", "c.c")
-    sw = body[body.index("switch"):]
-    sw = sw[sw.index("{") + 1:]
-    groups = {tuple(l): t for l, t in switch_groups(sw)}
+    funcs = _functions(repo, "c.c")
+    if "wasmCWriteLiteral" not in funcs:
+        raise ExtractFail("c.c", "wasmCWriteLiteral not found")
+    f = funcs["wasmCWriteLiteral"]
+    where = f"c.c:{f.line}"
+    ps, cases = literal_cases(f, where)
+
     def blk(name):
-        for l, t in groups.items():
-            if name in l:
-                return t
-        raise ExtractFail("c.c", f"case {name} not found in wasmCWriteLiteral")
-    i32 = blk("wasmValueTypeI32")
-    i64 = blk("wasmValueTypeI64")
-    if not re.search(r"stringBuilderAppendI32\(builder,\s*value\.i32\)\)\s*MUST\s*\(stringBuilderAppendChar\(builder,\s*'U'\)\)", i32):
+        if name not in cases:
+            raise ExtractFail("c.c", f"case {name} not found in wasmCWriteLiteral")
+        return cases[name]
+    L = _Lit(where + ":wasmCWriteLiteral", ps[0], ps[2])
+    i32 = L.case(blk("wasmValueTypeI32"))
+    if i32 != ("leaf", [("stringBuilderAppendI32", [f"{ps[2]}.i32"]), ("text", b"U")]):
         raise ExtractFail("c.c", "i32 literal is no longer `<%i>U`")
-    m = re.search(r'stringBuilderAppend\(builder,\s*"([^"]*)"\)\)\s*MUST\s*\(stringBuilderAppendI64\(builder,\s*value\.i64\)\)\s*MUST\s*\(stringBuilderAppend\(builder,\s*"([^"]*)"\)\)', i64)
-    if not m:
+    i64 = L.case(blk("wasmValueTypeI64"))
+    if i64[0] != "leaf" or len(i64[1]) != 3 or i64[1][0][0] != "text" or i64[1][2][0] != "text" \
+            or i64[1][1] != ("stringBuilderAppendI64", [f"{ps[2]}.i64"]):
         raise ExtractFail("c.c", "i64 literal is no longer `W2C2_LL(<%lli>U)`")
-    i64pre, i64suf = m.group(1), m.group(2)
-    f32 = float_branch(blk("wasmValueTypeF32"), "c.c:wasmCWriteLiteral/F32")
-    f64 = float_branch(blk("wasmValueTypeF64"), "c.c:wasmCWriteLiteral/F64")
+    i64pre, i64suf = i64[1][0][1].decode("ascii"), i64[1][2][1].decode("ascii")
+    L.where = "c.c:wasmCWriteLiteral/F32"
+    f32 = L.float_case(blk("wasmValueTypeF32"), 32)
+    L.where = "c.c:wasmCWriteLiteral/F64"
+    f64 = L.float_case(blk("wasmValueTypeF64"), 64)
     out = ["-- GENERATED by tools/extract/gen_literals.py from /repo/w2c2/{c.c,stringbuilder.c} — do not edit.",
            "namespace W2c2Verif.Gen", "",
            "structure FloatLitCfg where",
@@ -111,9 +256,8 @@ def generate(repo):
     out.append("/-- (function, buffer size, printf format, argument expression) of every number formatter of stringbuilder.c -/")
     out.append("def formatters : List (String × Nat × String × String) := [")
     rows = []
-    for fn in ("stringBuilderAppendU32", "stringBuilderAppendI32", "stringBuilderAppendU64", "stringBuilderAppendI64",
-               "stringBuilderAppendF32", "stringBuilderAppendF64", "stringBuilderAppendCharHex", "stringBuilderAppendU32Hex",
-               "stringBuilderAppendU64Hex"):
+    sb = _functions(repo, "stringbuilder.c")
+    for fn in FORMATTERS:
         size, fmt, arg = formatter(sb, fn, "stringbuilder.c")
         rows.append(f"  ({lean_str(fn)}, {size}, {lean_str(fmt)}, {lean_str(arg)})")
     out.append(",\n".join(rows))
